@@ -1529,6 +1529,10 @@ class GroupBy:
             result_df, values=values, n_values=len(value_list)
         )
 
+        if transform and self._values_is_polars(type_list):
+            # polars in, polars out, like the other reductions with transform=True
+            result = pl.from_pandas(result)
+
         return result
 
     @groupby_method(_GB_REDUCTION_DOCSTRING)
